@@ -59,10 +59,11 @@ P["C02"] = {
 P["C03"] = {
     "common": {"validate": 4, "ignore_kinds": ["alloc", "unwind"], "runs": [
         {"pattern": "verifHarness_C0304_", "label_filter": "C03:"},
+        {"pattern": "verifHarness_C03_", "label_filter": "C03:"},
         {"pattern": "verifHarness_C07_intact", "label_filter": "C07:"}]},
     "thorough": {"validate": 16},
     "bounds": "129 (writer type, target type) pairs: 28 catalogue types and the 11 scale types (long strings/bytes, big and zero-size-item collections, many fields) read into themselves; integer width (int64<->int/int32/int16, also inside slices/maps), float32 carried as double, pointer indirection (T<->*T<->**T, []T<->[]*T, struct<->*struct, []T->*[]T, map->*map), null.* wrappers vs plain and pointer targets, projections. The writer is the reference encoder with every writer-side freedom a solver variable: per array/map where the first block ends (1 or 2 blocks + terminator) and whether blocks carry a negative count and byte size; null first and null second in every nullable union. Values as C01. Fit clause: all 2^64 longs into int16 and int32 targets (error iff out of range). File level: every layout in {[1],[2,1],[1,1],[0,1]} (thorough +[2,2],[1,0,2],[0],[3]) x {null, deflate, snappy} through the real FileWriter and ReadFile",
-    "outside": "fixed / enum / multi-branch unions as data (see C05, C13); three or more blocks per collection; float64 data into float32 targets (narrowing is not an error in the library; not claimed)",
+    "outside": "fixed / enum / multi-branch unions as data (see C05, C13), except collections of zero-byte items (array of null, of fixed(0), of field-less records; 0..4 items, one or two blocks, plain or size-prefixed, last in the buffer or followed by another field: harness C03_zero_byte_items); three or more blocks per collection; float64 data into float32 targets (narrowing is not an error in the library; not claimed)",
     "assumptions": A_CORE + A_FILE,
 }
 P["C04"] = {
